@@ -45,9 +45,9 @@ def qnorm_le_one_hook(nrot_names):
             return None
         target = Poly.var(name) - 1
         if d == target:
-            return -1
+            return {-1, 0}      # rotational part of norm <= 1, boundary included (a half turn)
         if d == -target:
-            return 1
+            return {0, 1}
         return None
     return hook
 
@@ -136,6 +136,23 @@ def laws(cls):
         pose_equal(it, it.call_method(a, "__iadd__", [b]), add(it, a, b), "a += b is not a (+) b", allow_neg_quat=False)
         return dict(terms=nterms(got))
 
+    def law_identity_fresh(it):
+        # identity() hands out an independent object every time: using one (also in place) must not change the next one
+        a, = abc(it, 1)
+        e1 = it.call_method(a, "identity", [])
+        d = delta_vec(cls)
+        moved = it.call_method(e1, "__iadd__", [d])
+        e2 = it.call_method(a, "identity", [])
+        if e2 is e1 or e2 is moved:
+            raise ObFail("identity() returns the same object again (a shared instance)")
+        n = len(ref_R_t(it, e2)[1])
+        require_same(ref_matrix(it, e2), Arr(I(n + 1), 2), "after `e = identity(); e += delta` the next identity() is no longer the identity transform")
+        b = sym_pose(cls, "b", unit=True)
+        b0 = Pose(b.cls, list(b.data))
+        it.call_method(b, "__iadd__", [d])
+        pose_equal(it, b, b0, "`p += delta` modified the original pose object in place (operators must build new objects)", allow_neg_quat=False)
+        return dict(terms=nterms(e2))
+
     def law_accessors(it):
         a, = abc(it, 1)
         R, t = ref_R_t(it, a)
@@ -170,7 +187,7 @@ def laws(cls):
 
     out = [("M(a+b)=M(a)M(b)", law_matrix_product), ("a-b=inv(b)+a", law_ominus), ("inverse-two-sided", law_inverse),
            ("identity-two-sided", law_identity), ("associativity", law_assoc), ("point-action", law_point_action),
-           ("boxplus=oplus(Pose(delta))", law_boxplus), ("accessors", law_accessors)]
+           ("boxplus=oplus(Pose(delta))", law_boxplus), ("accessors", law_accessors), ("identity-fresh", law_identity_fresh)]
     return out, dict(to_matrix=law_to_matrix, from_matrix=law_from_matrix)
 
 
@@ -200,5 +217,5 @@ def run(run_, pkg, tier):
                 return run_obligation(pkg, law, hook=hook)
             anchor = pkg.method(cls, "__add__")
             tasks.append((key, "C09-group-law", task, "%s:%d" % (anchor._gs_module, anchor.lineno)))
-    run_.floor("group-law obligations", len(tasks) if run_.only is None else 35, 35)
+    run_.floor("group-law obligations", len(tasks) if run_.only is None else 39, 39)
     record(run_, tasks, run_tasks(pkg, tasks))
